@@ -1,6 +1,7 @@
 import DracoProofs.RobustValid
 import DracoProofs.SeqStream
 import DracoProofs.KdTreeValid
+import DracoProofs.GeneratedCore
 /-
   C03 — a successfully decoded geometry is structurally valid.
 
@@ -143,5 +144,14 @@ end
 example : (Geometry.mk true 3 [(0, 1, 2)]
     [{ attType := 0, dataType := 2, numComponents := 1, normalized := false, uniqueId := 0, numValues := 2,
        map := some [0, 1, 1], values := [7, 8] }]).valid = true := by decide
+
+/-! ## the size table of the attribute data types is the source's -/
+open Generated in
+/-- `DataTypeLength` (core/draco_types.cc, translated mechanically from clang's AST of /repo on every run) is the
+    model's `dataTypeLength` on every valid data type `DT_INT8 (1) … DT_BOOL (11)` -/
+theorem source_dataTypeLength_is_model (dt : Nat) (h1 : 1 ≤ dt) (h2 : dt ≤ 11) :
+    DataTypeLength dt = (dataTypeLength dt : Int) := DataTypeLength_eq_model dt h1 h2
+example : Generated.DataTypeLength (9 : Nat) = 4 := by
+  rw [source_dataTypeLength_is_model 9 (by decide) (by decide)]; decide
 
 end Draco.C03
